@@ -110,13 +110,13 @@ type World struct {
 // Knobs are per-run configuration choices.
 type Knobs struct {
 	MaxISD, MaxCore, MaxNonCore, MaxPeer, MaxRouters int
-	BFD                                             bool
-	ReuseLocal                                      bool
-	RcvBuf, SndBuf                                  int
-	Batch                                           int
-	RandomMaxExp                                    bool // per-AS maximum hop expiry drawn from 0..255
-	DirectConfigOrder                               bool // configure through direct Connector calls in a drawn order (C11)
-	RouterPortOverride                              bool
+	BFD                                              bool
+	ReuseLocal                                       bool
+	RcvBuf, SndBuf                                   int
+	Batch                                            int
+	RandomMaxExp                                     bool // per-AS maximum hop expiry drawn from 0..255
+	DirectConfigOrder                                bool // configure through direct Connector calls in a drawn order (C11)
+	RouterPortOverride                               bool
 }
 
 func (w *World) AS(ia addr.IA) *AS { return w.byIA[ia] }
@@ -231,7 +231,7 @@ func GenWorld(r *core.Run, k Knobs) *World {
 		nR := min(r.Range("routers", 1, k.MaxRouters), max(1, len(a.Intfs)))
 		for i := 0; i < nR; i++ {
 			rt := &Router{AS: a, Idx: i, Name: fmt.Sprintf("br%d-%d", a.Idx, i),
-				Internal: netip.AddrPortFrom(netip.AddrFrom4([4]byte{10, byte(a.Idx), 0, byte(i + 1)}), 30042),
+				Internal:      netip.AddrPortFrom(netip.AddrFrom4([4]byte{10, byte(a.Idx), 0, byte(i + 1)}), 30042),
 				linkToSibling: map[router.Link]*Router{}}
 			a.Routers = append(a.Routers, rt)
 		}
@@ -353,9 +353,9 @@ type simOpener struct {
 
 type simConn struct{}
 
-func (simConn) ReadBatch(conn.Messages) (int, error)       { select {} }
+func (simConn) ReadBatch(conn.Messages) (int, error)           { select {} }
 func (simConn) WriteBatch(m conn.Messages, _ int) (int, error) { return len(m), nil }
-func (simConn) Close() error                               { return nil }
+func (simConn) Close() error                                   { return nil }
 
 func (o *simOpener) Open(l, r netip.AddrPort, c *conn.Config) (router.BatchConn, error) {
 	o.Opens = append(o.Opens, openRec{l, r, *c})
